@@ -499,6 +499,11 @@ def fence_cases(req):
             'is_dir': lambda b: b.is_dir(root),
             'exists': lambda b: b.exists(root),
             'get_size': lambda b: b.get_size(os.path.join(root, 'in.txt')),
+            # paths with a constant answer (the build's own cache file) are fenced like any other
+            'is_file(cache file)': lambda b: b.is_file(cache),
+            'is_dir(cache file)': lambda b: b.is_dir(cache),
+            'exists(cache file)': lambda b: b.exists(cache),
+            'is_file(pathlib cache file)': lambda b: b.is_file(__import__('pathlib').Path(cache)),
         }
         for kind, b in sorted(held.items()):
             for mname, call in sorted(methods.items()):
